@@ -265,8 +265,9 @@ class O2JEventPackage:
                 log.debug(f"Appended Note {column} at {sub_measure}")
 
             elif note_type == O2JConst.HOLD_HEAD_BYTES:
+                # Floats: an all-int item would truncate the length assigned later
                 hold = O2JHold(
-                    volume=volume, pan=pan, column=column, length=-1, offset=0
+                    volume=volume, pan=pan, column=column, length=-1.0, offset=0.0
                 )
                 hold.measure = sub_measure
                 hold_buffer[column] = hold
